@@ -258,15 +258,17 @@ PROPS["C04"] = {
         J(c04 + "SliceOps", maxn=4, ops=2),
         J(c04 + "SliceOps", maxn=4, ops=0, arbitrary=1),
         J(c04 + "HeapOps", init=3, ops=3, covers=["re-init"]),
+        J(c04 + "HeapOps", fixedinit=6, ops=1, onlyremovefix=1, cfg={"Witnesses": 4}),
         J(c04 + "GenericOps", maxn=4, ops=2),
     ],
     "thorough": [
         J(c04 + "SliceOps", maxn=5, ops=3),
         J(c04 + "SliceOps", maxn=6, ops=0, arbitrary=1),
         J(c04 + "HeapOps", init=4, ops=4, covers=["re-init"], cfg={"MaxPaths": 60000000}),
+        J(c04 + "HeapOps", fixedinit=7, ops=1, onlyremovefix=1, cfg={"Witnesses": 4, "MaxPaths": 60000000}),
         J(c04 + "GenericOps", maxn=5, ops=3),
     ],
-    "bounds": {"quick": "comparator = comparison of arbitrary uninterpreted keys (every strict weak order incl. ties between different values); Slice: every valid heap of <= 4 symbolic elements (and FromSlice of every arbitrary slice <= 4), then 2 arbitrary operations Push/Pop/Peek/Remove(i)/Fix(i)/PopAll with symbolic 64-bit indices; Heap: 0..3 pushed elements + a foreign heap, 3 arbitrary operations Push/Pop/Peek/Remove(h)/Fix(h)/Init/PopAll over every choice of live, stale and foreign handles; generic Init/Push/Pop/Remove/Fix on a harness container of <= 4 elements, 2 operations",
+    "bounds": {"quick": "comparator = comparison of arbitrary uninterpreted keys (every strict weak order incl. ties between different values); Slice: every valid heap of <= 4 symbolic elements (and FromSlice of every arbitrary slice <= 4), then 2 arbitrary operations Push/Pop/Peek/Remove(i)/Fix(i)/PopAll with symbolic 64-bit indices; Heap: 0..3 pushed elements + a foreign heap, 3 arbitrary operations Push/Pop/Peek/Remove(h)/Fix(h)/Init/PopAll over every choice of live, stale and foreign handles, plus every heap of exactly 6 pushed elements followed by one Remove(h)/Fix(h) of any handle (replacement moving up or down), with the heap order checked between every element and its parent through the handles' indices; generic Init/Push/Pop/Remove/Fix on a harness container of <= 4 elements, 2 operations",
                "thorough": "up to 5-6 elements, 3-4 operations"},
     "outside": ["PushElement of an element that is already in a heap (not in the property)", "longer operation sequences"],
     "assumptions": ["the comparator is a strict weak order (it is key(a) < key(b) for an arbitrary key function)"],
